@@ -867,7 +867,37 @@ def coq_bools(pid, exprs, tag="cert"):
     return res
 
 
+REBUILD_TARGETS = ["theories/Model/ShapesRun.vo", "theories/Checker/ShapesCert.vo", "theories/Checker/ShapesMeshCone.vo"]
+
+
+def _retry_inconsistent(f):
+    """another agent rebuilt a shared dependency (Base/*.vo) while this check was running: the compiled
+    libraries are then mutually inconsistent for a moment.  That is a build race, never a verdict:
+    rebuild this check's own targets and evaluate again (up to three times)."""
+    import time as _time
+    last = None
+    for attempt in range(4):
+        try:
+            return f()
+        except RuntimeError as e:
+            last = e
+            if "inconsistent assumptions" not in str(e) and "Cannot find a physical path" not in str(e) \
+                    and "is not a compiled" not in str(e):
+                raise
+            _time.sleep(5 + 20 * attempt)
+            cm.coq_build(REBUILD_TARGETS)
+    raise last
+
+
+def coq_eval_lines_retry(pid, header, exprs, **kw):
+    return _retry_inconsistent(lambda: cm.coq_eval_lines(pid, header, exprs, **kw))
+
+
 def coq_eval_blocks(pid, header, blocks, tag="cases", per_file=8, timeout=900):
+    return _retry_inconsistent(lambda: _coq_eval_blocks(pid, header, blocks, tag, per_file, timeout))
+
+
+def _coq_eval_blocks(pid, header, blocks, tag="cases", per_file=8, timeout=900):
     """Like common.coq_eval_lines, but every case is a block (definitions, expression): the
     definitions (`[(name, term)]`, names local to the case; they are prefixed here) are emitted as
     Coq `Definition`s before the case's `Eval vm_compute`.  Large literals bound by `let ... in`
